@@ -15,7 +15,7 @@ LEVEL_TEXT = ("Static structural proof of necessary conditions: (R16.1) the thre
               "and the dataset result; (R16.4) the command-line status is non-zero iff the unmodified validate result "
               "is non-empty; (R16.5) applicable sidecars are collected root->leaf and merged forward with later-wins. "
               "The applicability test on entities and equality with per-file validation are NOT decided.")
-LEVEL_EXTRA = "Added after the seeded evaluation: (R16.2) both directory walkers apply the same exclusion test. (R16.6) a data file's sidecar is built from the whole list of sidecars applicable to it."
+LEVEL_EXTRA = "Added after the seeded evaluation: (R16.2) both directory walkers apply the same exclusion test. (R16.6) a data file's sidecar is built from the whole list of sidecars applicable to it. (R16.7) no entity comparison in is_sidecar_for defaults a missing entity to the expected value."
 
 
 def bind(call, callee, skip_self=False):
@@ -434,6 +434,27 @@ def run(ctx):
                       "`sub-01/sub-01_events.json`) is dropped from the events file's annotation" % norm(st.value)[:50],
                       desc="data file's sidecar built from its whole sidecar list")
     ctx.floor("R16.6", "sidecar attachments in BidsFileGroup.__init__", n_attach, 1)
+
+    # ---------------- R16.7: an entity the sidecar names must be present in the data file with the same value
+    ctx.rule("R16.7", "in is_sidecar_for no entity comparison defaults a missing entity to the expected value")
+    isf = prog.find_class("BidsSidecarFile").methods.get("is_sidecar_for")
+    if isf is None:
+        raise AnalysisError("anchor BidsSidecarFile.is_sidecar_for vanished")
+    ctx.saw(isf)
+    n_ent = 0
+    for c in walk_no_nested(isf.node):
+        if isinstance(c, ast.Compare) and len(c.ops) == 1 and isinstance(c.ops[0], (ast.Eq, ast.NotEq)) and "entity_dict" in norm(c):
+            n_ent += 1
+            sides = [c.left, c.comparators[0]]
+            bad = False
+            for a, b in (sides, sides[::-1]):
+                if isinstance(a, ast.Call) and call_name(a) == "get" and len(a.args) == 2 and norm(a.args[1]) == norm(b):
+                    bad = True
+            ctx.check(not bad, "R16.7", isf.qualname, c, loc(isf, c),
+                      "a missing entity is read with the expected value as its default, so it compares equal: a sidecar that names "
+                      "`run-1` or `task-x` is applied to data files that lack that entity",
+                      desc="entity comparison does not default to the expected value")
+    ctx.floor("R16.7", "entity value comparisons in is_sidecar_for", n_ent, 1)
 
 
 def _reversal_ops(fnode):
